@@ -109,7 +109,7 @@ def model_and_replay(rep: Report, tier: str) -> None:
 # ------------------------------------------------------------------ C->S
 def corpus_items(tier: str, seed: int) -> list:
     rnd = random.Random(seed)
-    n = 140 if tier == "quick" else 1400
+    n = 140 if tier == "quick" else 800
     cap = 6000 if tier == "quick" else 40000
     files = [x for x in sq.corpus_sample(n * 2, seed, templated=False) if os.path.getsize(x[0]) <= cap][:n]
     items = []
@@ -118,7 +118,7 @@ def corpus_items(tier: str, seed: int) -> list:
     tf = [f for f in sq.templater_fixtures() if os.path.getsize(f) <= cap]
     for k, f in enumerate(tf[: (30 if tier == "quick" else len(tf))]):
         items.append({"id": f"t{k}", "path": f, "dialect": "ansi", "templater": "path", "sql": None, "cli": True, "api": False})
-    nm = 40 if tier == "quick" else 400
+    nm = 40 if tier == "quick" else 200
     for k in range(nm):
         p, d, t = files[rnd.randrange(len(files))]
         items.append({"id": f"m{k}", "path": p, "dialect": d, "templater": t, "sql": treerec.mutant(sq.read(p), rnd),
